@@ -225,8 +225,11 @@ MUTANTS = [
      "                        try:\n                            load_current(self.base, oid)\n                        except ZODB.POSException.POSKeyError:\n                            self._next_oid += 1",
      "                        try:\n                            raise ZODB.POSException.POSKeyError(oid)\n                        except ZODB.POSException.POSKeyError:\n                            self._next_oid += 1"),
     ('C20', 'demo-ignores-issued', DS,
-     "                if oid not in self._issued_oids:\n                    try:\n                        load_current(self.changes, oid)",
-     "                if True:\n                    try:\n                        load_current(self.changes, oid)"),
+     "                if oid not in self._issued_oids and \\\n                        oid not in self._stored_oids:",
+     "                if oid not in self._stored_oids:"),
+    ('C20', 'demo-ignores-ids-stored-in-flight', DS,
+     "                if oid not in self._issued_oids and \\\n                        oid not in self._stored_oids:",
+     "                if oid not in self._issued_oids:"),
     ('C20', 'mapping-new-oid-without-lock', MS,
      "    @ZODB.utils.locked(opened)\n    def new_oid(self):",
      "    def new_oid(self):"),
